@@ -633,3 +633,52 @@ def case_erosion(rng):
             hist.append(f"req {rng.choice([1, 1, gen_t, rng.randint(2, gen_t)])}")
         hist += ["endsession", "cleannodes"]
     return lines + hist, dict(uses_wrote=(wk == "wrote"), erosion=True)
+
+
+# ------------------------------------------------------------------ exhaustive small scope (thorough tier)
+def exhaustive_small(max_cases=None):
+    """EVERY program of a small scope x EVERY history of a small scope (well-formed programs only, so every oracle of the
+    well-formed streams applies): 3 tasks (task 3 a leaf, task 2 a leaf or a task over 3, task 1 a task over 2 and/or 3),
+    two sources S=1 (data) and W=2 (switch), one generated resource G=10 written by the leaf, output checkers
+    {Equals, AlwaysConsistent, ParityOut}; histories: initial build of task 1, then two rounds of one external change
+    each (S or W, to one of two values), each round built top-down (require 1) or bottom-up (changed set reported, then
+    every known task required)."""
+    S, W, G = 1, 2, 10
+    leaves = [f"read {S} 0 ret v 0", f"read {S} 1 ret % v 0", "ret k 1", f"read {S} 0 write {G} 0 some v 0 ret k 1",
+              f"read {S} 0 write {G} 0 some % v 0 ret v 0"]
+
+    def mids(t, targets, gen_by):
+        out = []
+        for u in targets:
+            for c in (0, 4, 5):
+                out.append(f"req {u} {c} ret v 0")
+                out.append(f"read {W} 0 if = v 0 k 1 req {u} {c} ret + v 1 k 5 ret k 0")
+                if gen_by == u:
+                    out.append(f"req {u} {c} read {G} 0 ret + v 0 v 1")
+                    out.append(f"read {W} 0 if = v 0 k 1 req {u} {c} read {G} 0 ret v 2 ret k 0")
+        if len(targets) == 2:
+            a, b = targets
+            for c in (0, 4):
+                out.append(f"req {a} {c} req {b} 0 ret + v 0 v 1")
+                out.append(f"req {a} 0 if = v 0 k 1 req {b} {c} ret v 1 ret k 7")
+        return out
+    changes = [f"set {S} 0", f"set {S} 2", f"set {W} 0", f"set {W} 1"]
+    n = 0
+    for l3 in leaves:
+        g3 = 3 if "write" in l3 else None
+        for t2 in leaves[:3] + mids(2, [3], g3):
+            for t1 in mids(1, [2, 3] if True else [2], g3):
+                prog = [f"task 1 {t1}", f"task 2 {t2}", f"task 3 {l3}"]
+                for c1 in changes:
+                    for c2 in changes:
+                        for m1 in ("td", "bu"):
+                            for m2 in ("td", "bu"):
+                                h = [f"set {S} 1", f"set {W} 1", "session", "req 1", "endsession", "clean 1"]
+                                for ch, m in ((c1, m1), (c2, m2)):
+                                    r = ch.split()[1]
+                                    h.append(ch)
+                                    if m == "td": h += ["session", "req 1", "endsession", "clean 1"]
+                                    else: h += ["session", f"bu {r}", "endsession", "session", "reqknown", "endsession", "cleanknown"]
+                                yield prog + h
+                                n += 1
+                                if max_cases and n >= max_cases: return
